@@ -33,7 +33,7 @@ type event struct {
 	Hist    int           `json:"hist"`
 	ID      uint32        `json:"id"`
 	Kind    string        `json:"kind"`
-	Records [][][2]string `json:"records"`
+	Records [][][3]string `json:"records"`
 	TFields [][3]string   `json:"tfields"`
 	Method  string        `json:"method"`
 	URL     string        `json:"url"`
@@ -46,6 +46,8 @@ type event struct {
 }
 
 var reSeq = regexp.MustCompile(`Sequence No\.: (\d+),`)
+var reCache = map[string]*regexp.Regexp{}
+var reMarker = regexp.MustCompile(`vfid-(\d+)-`)
 var separator = strings.Repeat("=", 80)
 
 func entries(ev event, format string) ([]string, error) {
@@ -80,57 +82,90 @@ func octetRenderings(hx string) []string {
 // checkEntry verifies that the rendered entry shows every field of every record by name and value.
 func checkEntry(entry string, a event) string {
 	if a.Kind == "template" {
-		if !strings.Contains(entry, "TEMPLATE SET:") {
-			return "entry of a template message lacks the TEMPLATE SET section"
-		}
 		for _, f := range a.TFields {
-			if !strings.Contains(entry, fmt.Sprintf("    %s: len=%s (enterprise ID = %s) \n", f[0], f[1], f[2])) {
+			key := "T/" + f[0] + "/" + f[1] + "/" + f[2]
+			re := reCache[key]
+			if re == nil {
+				re = regexp.MustCompile(`(?m)^[ \t]*` + regexp.QuoteMeta(f[0]) + `[ \t]*[:=].*\b` + f[1] + `\b.*\b` + f[2] + `\b`)
+				reCache[key] = re
+			}
+			if !re.MatchString(entry) {
 				return fmt.Sprintf("template field %q (len %s, enterprise %s) is not shown", f[0], f[1], f[2])
 			}
 		}
 		return ""
 	}
-	if !strings.Contains(entry, "DATA SET:") {
-		return "entry of a data message lacks the DATA SET section"
-	}
+	// every field of every record must be shown, by name and value, somewhere in the entry (values are
+	// PRNG-drawn per record, so a record that is not rendered leaves its values unmatched)
 	for i, rec := range a.Records {
-		hdr := fmt.Sprintf("  DATA RECORD-%d:\n", i)
-		p := strings.Index(entry, hdr)
-		if p < 0 {
-			return fmt.Sprintf("record %d is not shown", i)
-		}
-		sec := entry[p+len(hdr):]
-		if q := strings.Index(sec, fmt.Sprintf("  DATA RECORD-%d:\n", i+1)); q >= 0 {
-			sec = sec[:q]
-		}
 		for _, f := range rec {
-			name, want := f[0], f[1]
-			ok := false
-			if strings.HasPrefix(want, "octets:") {
-				for _, rd := range octetRenderings(want[7:]) {
-					if strings.Contains(sec, fmt.Sprintf("    %s: %s \n", name, rd)) {
-						ok = true
-						break
-					}
-				}
-				if !ok {
-					line := ""
-					if x := strings.Index(sec, "    "+name+": "); x >= 0 {
-						line = sec[x:]
-						if y := strings.Index(line, "\n"); y >= 0 {
-							line = line[:y]
-						}
-					}
-					return fmt.Sprintf("record %d: octetArray field %q is not shown with its value (bytes %s); the entry shows %q", i, name, want[7:], strings.TrimSpace(line))
-				}
-				continue
-			}
-			if !strings.Contains(sec, fmt.Sprintf("    %s: %s \n", name, want)) {
-				return fmt.Sprintf("record %d: field %q with value %q is not shown", i, name, want)
+			if why := fieldShown(entry, f[0], f[1], f[2]); why != "" {
+				return fmt.Sprintf("record %d: %s", i, why)
 			}
 		}
 	}
 	return ""
+}
+
+// fieldShown looks for a line "<name> : <value>" (any indentation, ':' or '=' as separator) whose value is
+// a faithful rendering of the field: the property promises name and value, not a format.
+func fieldShown(sec, name, want, kind string) string {
+	re := reCache[name]
+	if re == nil {
+		re = regexp.MustCompile(`(?m)^[ \t]*` + regexp.QuoteMeta(name) + `[ \t]*[:=][ \t]*(.*?)[ \t]*$`)
+		reCache[name] = re
+	}
+	ms := re.FindAllStringSubmatch(sec, -1)
+	if len(ms) == 0 {
+		return fmt.Sprintf("field %q is not shown by name", name)
+	}
+	for _, m := range ms {
+		got := m[1]
+		switch kind {
+		case "octets":
+			for _, rd := range octetRenderings(want[7:]) {
+				if got == rd {
+					return ""
+				}
+			}
+		case "int":
+			if got == want {
+				return ""
+			}
+			if a, err := strconv.ParseInt(got, 0, 64); err == nil {
+				if b, err2 := strconv.ParseInt(want, 10, 64); err2 == nil && a == b {
+					return ""
+				}
+			}
+			if a, err := strconv.ParseUint(got, 0, 64); err == nil {
+				if b, err2 := strconv.ParseUint(want, 10, 64); err2 == nil && a == b {
+					return ""
+				}
+			}
+		case "float":
+			a, err1 := strconv.ParseFloat(got, 64)
+			b, err2 := strconv.ParseFloat(want, 64)
+			if err1 == nil && err2 == nil && a == b {
+				return ""
+			}
+		case "bool":
+			if got == want || (want == "true" && got == "1") || (want == "false" && (got == "0" || got == "2")) {
+				return ""
+			}
+		case "mac":
+			if strings.EqualFold(got, want) || strings.EqualFold(strings.ReplaceAll(got, "-", ":"), want) || strings.EqualFold(got, strings.ReplaceAll(want, ":", "")) {
+				return ""
+			}
+		default: // str, ip
+			if got == want || got == strconv.Quote(want) {
+				return ""
+			}
+		}
+	}
+	if kind == "octets" {
+		return fmt.Sprintf("octetArray field %q is not shown with its value (bytes %s); the entry shows %q", name, want[7:], ms[0][1])
+	}
+	return fmt.Sprintf("field %q is shown as %q, its value is %q", name, ms[0][1], want)
 }
 
 func main() {
@@ -281,7 +316,10 @@ func main() {
 		var ids []uint32
 		bad := false
 		for _, e := range ents {
-			m := reSeq.FindStringSubmatch(e)
+			m := reMarker.FindStringSubmatch(e)
+			if m == nil {
+				m = reSeq.FindStringSubmatch(e) // template messages carry no values: they are recognised by the header line
+			}
 			if m == nil {
 				fail(cur, "entry-without-id", "an entry does not show its sequence number", ev)
 				bad = true
